@@ -367,15 +367,31 @@ def const_in_guard(facts, f, op, k):
     return None
 
 
+def limit_guard(e):
+    """A comparison of a value with a constant read as an upper limit: (value expr, L, True when the comparison is true ABOVE the limit).
+    `x > L`, `x >= L+1`, `L < x`, `L+1 <= x` are true above; `x <= L`, `x < L+1`, `L >= x`, `L+1 > x` are true at or below."""
+    if e[0] != 'binop' or e[1] not in ('Gt', 'Ge', 'Lt', 'Le'):
+        return None
+    op, l, r = e[1], e[2], e[3]
+    if r[0] == 'const' and isinstance(r[1], int):
+        c = r[1]
+        return {'Gt': (l, c, True), 'Ge': (l, c - 1, True), 'Le': (l, c, False), 'Lt': (l, c - 1, False)}[op]
+    if l[0] == 'const' and isinstance(l[1], int):
+        c = l[1]
+        return {'Lt': (r, c, True), 'Le': (r, c - 1, True), 'Ge': (r, c, False), 'Gt': (r, c - 1, False)}[op]
+    return None
+
+
 def guard_consts(facts, f, op):
+    """upper limits tested by the body's branches, whatever way round the comparison is written (`> 63`, `>= 64`, `<= 63` ...)"""
     defs = F.single_defs(f)
     out = []
     for gi, gb in F.blocks(f):
         t = gb['term']
         if t['k'] == 'switch':
-            e = F.expr(f, defs, t['discr'])
-            if e[0] == 'binop' and e[1] == op and e[3][0] == 'const':
-                out.append(e[3][1])
+            g = limit_guard(F.expr(f, defs, t['discr']))
+            if g is not None:
+                out.append(g[1])
     return out
 
 
@@ -461,10 +477,10 @@ def limits_rule(ctx, facts, cfg, pol, e4):
                         for gi, gb in F.blocks(f):
                             t = gb['term']
                             if t['k'] == 'switch':
-                                ge_ = F.expr(f, defs, t['discr'])
-                                if ge_[0] == 'binop' and ge_[1] == 'Gt' and ge_[3] == ('const', pol['label_max']) and lk is not None and _load_key(ge_[2]) == lk:
-                                    safe = [tb for v_, tb in t['targets'] if v_ == 0]
-                                    if safe and (safe[0] in dom.get(bi, ()) or safe[0] == bi):
+                                g_ = limit_guard(F.expr(f, defs, t['discr']))
+                                if g_ is not None and g_[1] == pol['label_max'] and lk is not None and _load_key(g_[0]) == lk:
+                                    below = [tb for v_, tb in t['targets'] if v_ == 0] if g_[2] else ([t['otherwise']] if all(v_ == 0 for v_, _ in t['targets']) else [tb for v_, tb in t['targets'] if v_ == 1])
+                                    if below and (below[0] in dom.get(bi, ()) or below[0] == bi):
                                         guarded = True
                         if guarded and all(x is not None for x in his):
                             his = [min(h, pol['label_max']) for h in his]
@@ -494,6 +510,8 @@ def limits_rule(ctx, facts, cfg, pol, e4):
                     e = F.expr(f, defs, t['discr'])
                     if e[0] == 'binop' and e[1] == 'Ge' and e[2][0] in ('local', 'cast', 'binop') and e[3][0] == 'local':
                         has_back = True
+                    if e[0] == 'binop' and e[1] in ('Le', 'Lt') and e[3][0] in ('local', 'cast', 'binop') and e[2][0] == 'local':
+                        has_back = True     # the same test written the other way round (`lowest <= ref`, or `ref < lowest` with the arms swapped)
             ctx.instance(rid, 'pointer targets are tested `>= lowest offset so far -> error` (strictly backward)', ok=has_back, site=f['at'])
             if not has_back:
                 ctx.violation(rid, key, 'backward-only', 'no `ref_offset >= lowest_offset` refusal found: forward / self pointers could be followed', site=f['at'], config=cfg)
